@@ -90,6 +90,11 @@ func newNodeBase(ctx context.Context, flavour string) (*Node, error) {
 
 func (n *Node) add(hs ...p2p.MessageHandler) {
 	n.Msg.AddMessageHandler(hs...)
+	n.record(hs...)
+}
+
+// record notes the handlers in registration order (for the "why" probe) without registering them.
+func (n *Node) record(hs ...p2p.MessageHandler) {
 	for _, h := range hs {
 		for _, pr := range h.MessagePrototypes() {
 			n.Handlers[pr.Topic()] = append(n.Handlers[pr.Topic()], h)
@@ -141,6 +146,7 @@ type Obs struct {
 	Herr string   `json:"herr"`
 	Out  []OutMsg `json:"out"`
 	D    Delta    `json:"d"`
+	Nv   int      `json:"nv"` // validators registered on the topic
 	// not part of the TLA+ record (kept out of the trace): diagnostics
 	Detail  string   `json:"-"`
 	Changed []string `json:"-"`
@@ -293,6 +299,17 @@ func classifyCore(_ p2p.MessageHandler, res pubsub.ValidationResult, err error) 
 	}
 	e := err.Error()
 	for _, p := range [][2]string{
+		// flavour validators (gnosis / shutterservice handlers.go)
+		{"unexpected extra type", "extra"},
+		{"missing extra", "extra"},
+		{"msg does not contain any keys", "empty"},
+		{"failed to get keyper set", "keyperset"},
+		{"out of range for keyper set", "senderidx"},
+		{"signature invalid", "flavoursig"},
+		{"failed to check", "flavoursig"},
+		{"signers, got", "flavoursig"},
+		{"one signature per signer", "flavoursig"},
+		// core validators
 		{"instance ID mismatch", "instance"},
 		{"overflow", "overflow"},
 		{"failed to get config", "config"},
@@ -318,7 +335,7 @@ func classifyCore(_ p2p.MessageHandler, res pubsub.ValidationResult, err error) 
 // Observe runs one delivery through the node: combined validator, Handle only on accept, and
 // the projection of the database change. trueKey gives the dealer's key for an identity.
 func (n *Node) Observe(ctx context.Context, d Delivery, w *World, classify func(p2p.MessageHandler, pubsub.ValidationResult, error) string) Obs {
-	o := Obs{Out: []OutMsg{}}
+	o := Obs{Out: []OutMsg{}, Nv: n.Msg.VerifGossipvalValidatorCount(d.RegTopic)}
 	o.V, o.Detail = n.Validate(ctx, d)
 	if o.V == "accept" {
 		o.H = true
